@@ -24,9 +24,11 @@ PROP = "C17"
 
 TIERS = {
     "quick": {"sessions": 5, "workers": 3, "single": 36, "multi": 320,
-              "budget_s": None, "worlds": 120},
+              "budget_s": None, "worlds": 120, "alternations": 2,
+              "alt_rounds": 250},
     "thorough": {"sessions": 400, "workers": 4, "single": 60, "multi": 400,
-                 "budget_s": 25 * 60, "worlds": 300},
+                 "budget_s": 25 * 60, "worlds": 300, "alternations": 4,
+                 "alt_rounds": 400},
 }
 
 ASSUMPTIONS = [
@@ -63,6 +65,10 @@ def _session_plan(seed, session, conf):
         recipes.append({"kind": "multi", "id": f"m{i}", "recipe": r,
                         "sim_seed": rng.randrange(10 ** 6),
                         "with_codegen": i % 6 == 0})
+    for i in range(conf.get("alternations", 0)):
+        recipes.append({"kind": "alt", "id": f"alt{i}",
+                        "recipe": {"family": (session + i) % 4,
+                                   "rounds": conf.get("alt_rounds", 250)}})
     # per-worker command lists: every recipe twice, junk in between
     plans = []
     for w in range(k):
@@ -94,6 +100,8 @@ def _issue(worker, recipes, cmd):
     r = recipes[arg]
     if kind == "probe":
         return worker.call("set_probe", recipe=r["recipe"])
+    if r["kind"] == "alt":
+        return worker.call("c17_alternation", **r["recipe"])
     if r["kind"] == "single":
         return worker.call("c17_single", recipe=r["recipe"], with_c=r["with_c"])
     return worker.call("c17_multi", recipe=r["recipe"], sim_seed=r["sim_seed"],
@@ -173,6 +181,20 @@ def run_session(task):
                               "history": _hist(plans[other[0]], other[3], recipes)},
                     })
                     break
+            if ok and recipes[ri]["kind"] == "alt":
+                for other in lst:
+                    if _alt_bad(other[2]):
+                        ok = False
+                        side = {"worker": other[0], "config": cfgs[other[0]],
+                                "production": other[1],
+                                "history": _hist(plans[other[0]], other[3],
+                                                 recipes)}
+                        res["violations"].append({
+                            "class": "differs-within-one-process:alt:text",
+                            "recipe": recipes[ri], "field": "alt",
+                            "diff": [str(other[2].get("alt"))],
+                            "a": side, "b": side})
+                        break
             rec0 = ref[2]
             for k, v in rec0.items():
                 if isinstance(v, str) and v.startswith("ERR"):
@@ -288,11 +310,28 @@ def _world_differs(cfgs, rc):
     return False, (None, [])
 
 
+def _alt_bad(rec):
+    """an alternation record that saw the text of the fixed program change"""
+    return isinstance(rec, dict) and rec.get("alt", "stable") != "stable" \
+        and not str(rec["alt"]).startswith("ERR baseline")
+
+
 def replay_doc(doc):
     """re-launch the two interpreters; True iff their records differ again"""
     entry = doc["recipe_entry"]
     if doc.get("world"):
         return _world_differs(doc["configs"], entry["recipe"])
+    if entry["kind"] == "alt":
+        # the record itself says whether the text changed within the process
+        for side in ("a", "b"):
+            for hist in (None, doc[side].get("history")):
+                if hist is not None and doc.get("session_recipes") is None:
+                    continue
+                r = _produce(doc[side]["config"], entry, hist,
+                             doc.get("session_recipes"))
+                if _alt_bad(r):
+                    return True, ("alt", [str(r.get("alt"))])
+        return False, (None, [])
     a = _produce(doc["a"]["config"], entry)
     b = _produce(doc["b"]["config"], entry)
     if a != b:
@@ -334,6 +373,8 @@ def minimise(v, budget_s=120.0):
                 if e["recipe"]["nranks"] < 2:
                     return False
                 return _world_differs(v["configs"], e["recipe"])[0]
+            if e["kind"] == "alt":
+                return _alt_bad(_produce(ca, e)) or _alt_bad(_produce(cb, e))
             return _produce(ca, e) != _produce(cb, e)
         except Exception:  # noqa: BLE001
             return False
@@ -342,6 +383,8 @@ def minimise(v, budget_s=120.0):
     progress = True
     while progress and time.monotonic() - t0 < budget_s:
         progress = False
+        if entry["kind"] == "alt":
+            break           # nothing to shrink: a canned program family
         cands = mrecipe.shrink_candidates(entry["recipe"]) \
             if entry["kind"] == "multi" else _shrink_single(entry["recipe"])
         for rc in cands:
